@@ -8,7 +8,7 @@ import sympy as sp
 
 from .. import units as U
 from ..anf import is_zero, short
-from ..dfmodel import DFV, SeqV, DF_LIB, Printed
+from ..dfmodel import DFV, SeqV, DF_LIB, Printed, df_wrap
 from ..facts import KeyObj, KEYS21, voigt_canon, c_intrinsic
 from ..libsum import lib_func, positional_params, return_arity, numba_signature_readonly_intolerant
 from ..model import dotted_name, src, body_wo_doc
@@ -155,7 +155,7 @@ def _run_main(ctx, model, interp, with_table, system=None, cellmass=None):
         "cij.c_": c_intrinsic,
     }
     for kname, fn in DF_LIB.items():
-        intr[kname] = (lambda f: (lambda ev, a, k: f(ev, a, k, None, None)))(fn)
+        intr[kname] = df_wrap(fn)
         intr["builtins." + kname] = intr[kname]
     seeds = {("global", "cij.util.units:units"): UnitReg(), ("global", "cij.util:c_"): LibV("cij.c_")}
     ev = Ev(model, seeds, intr, ctx=ctx)
